@@ -46,6 +46,7 @@ type c10Scenario struct {
 	Single  bool     `json:"single"`
 	Seed    int64    `json:"seed"`
 	Recs    []c10Rec `json:"recs"`
+	Revoke  bool     `json:"revoke"` // a rebalance takes the partitions away (splitConsume.Lost) while the records handed over sit in the output
 }
 
 var c10IDRe = regexp.MustCompile(`"id":(\d+)`)
@@ -197,6 +198,7 @@ func (a *c10Action) Do(e *pipeline.Event) pipeline.ActionResult {
 }
 
 type c10Output struct {
+	hold    chan struct{} // non-nil: sends wait until it is closed
 	r       *c10Run
 	batcher *pipeline.RetriableBatcher
 	cancel  context.CancelFunc
@@ -221,6 +223,9 @@ func (o *c10Output) Start(_ pipeline.AnyConfig, p *pipeline.OutputPluginParams) 
 func (o *c10Output) Stop()                 { o.batcher.Stop(); o.cancel() }
 func (o *c10Output) Out(e *pipeline.Event) { o.batcher.Add(e) }
 func (o *c10Output) send(_ *pipeline.WorkerData, b *pipeline.Batch) error {
+	if o.hold != nil {
+		<-o.hold
+	}
 	ids := []int{}
 	b.ForEach(func(e *pipeline.Event) {
 		id := c10ID(e)
@@ -278,9 +283,13 @@ func c10RunScenario(sc *c10Scenario) *c10Run {
 		PluginStaticInfo: &pipeline.PluginStaticInfo{Type: "verif_act", Factory: func() (pipeline.AnyPlugin, pipeline.AnyConfig) { return &c10Action{r: r}, nil }},
 		MatchMode:        pipeline.MatchModeAnd,
 	})
+	outp := &c10Output{r: r, rng: rand.New(rand.NewSource(sc.Seed)), kidsAcked: map[int]int{}}
+	if sc.Revoke {
+		outp.hold = make(chan struct{})
+	}
 	p.SetOutput(&pipeline.OutputPluginInfo{
 		PluginStaticInfo:  &pipeline.PluginStaticInfo{Type: "verif_out"},
-		PluginRuntimeInfo: &pipeline.PluginRuntimeInfo{Plugin: &c10Output{r: r, rng: rand.New(rand.NewSource(sc.Seed)), kidsAcked: map[int]int{}}, ID: "verif_out"},
+		PluginRuntimeInfo: &pipeline.PluginRuntimeInfo{Plugin: outp, ID: "verif_out"},
 	})
 	r.log("Reset", "name", sc.Name)
 	p.Start()
@@ -333,6 +342,30 @@ func c10RunScenario(sc *c10Scenario) *c10Run {
 			recs = recs[n:]
 		}
 	}
+	revoked := false
+	if sc.Revoke {
+		// every record has been handed over (or sits in a consumer's queue); nothing is acknowledged: the output is held.  The
+		// group rebalances: the REAL revoke callback.  Whatever is marked when it returns is committed by franz-go right after it.
+		rd := time.Now().Add(10 * time.Second)
+		for time.Now().Before(rd) {
+			r.mu.Lock()
+			reads := 0
+			for _, e := range r.evs {
+				if e["ev"] == "InRet" {
+					reads++
+				}
+			}
+			r.mu.Unlock()
+			if reads == len(sc.Recs) {
+				break
+			}
+			time.Sleep(time.Millisecond)
+		}
+		sp.Lost(context.Background(), client, assigned)
+		r.log("Marks", "id", 0, "marks", c10Heads(client, topics))
+		revoked = true
+		close(outp.hold)
+	}
 	// wait until every record was read and every accepted one is finished
 	deadline := time.Now().Add(20 * time.Second)
 	idle := false
@@ -358,8 +391,10 @@ func c10RunScenario(sc *c10Scenario) *c10Run {
 		time.Sleep(500 * time.Microsecond)
 	}
 	r.log("End", "idle", idle)
-	for _, pc := range cons {
-		close(pc.quit)
+	if !revoked {
+		for _, pc := range cons {
+			close(pc.quit)
+		}
 	}
 	if idle {
 		// Plugin.Stop needs a broker (CommitMarkedOffsets); stop the rest of the pipeline pieces the harness owns
